@@ -309,10 +309,12 @@ class Monitor(object):
         if st == 'OPENSENT' and self.t_connect is not None:
             if obs['timers'].get('hold') != [self.t_connect + 720]:
                 self.fail('C03', 'OpenSent without the 4-minute hold limit: %r' % (obs['timers'],), 'large-hold')
-            elif set(obs['timers']) - {'hold'}:
-                # "while waiting for the peer's OPEN the limit is the fixed 4-minute large hold time": no other timer that
-                # could end the wait earlier is running (RFC 4271 8.2.2: the ConnectRetryTimer is stopped when TCP comes up)
-                self.fail('C03', 'in OpenSent another timer than the large hold timer is running: %r' % (obs['timers'],), 'opensent-timers')
+            elif obs['timers'].get('retry'):
+                # "while waiting for the peer's OPEN the limit is the fixed 4-minute large hold time": the one other timer
+                # whose expiry ends the wait (FSM error in OpenSent) is not running (RFC 4271 8.2.2: the ConnectRetryTimer
+                # is stopped when TCP comes up).  A left-over keepalive / idle-hold timer only clears itself in OpenSent.
+                self.fail('C03', 'in OpenSent the connect-retry timer is running next to the large hold timer: %r' % (obs['timers'],),
+                          'opensent-timers')
         if k == 'fire' and ev['t'] == 'hold' and prev['state'] in ('OPENSENT', 'OPENCONFIRM', 'ESTABLISHED'):
             ws = [o for o in outs if o[0] == 'write']
             if len(ws) != 1 or bytes.fromhex(ws[0][2])[18:21] != b'\x03\x04\x00' or obs['state'] != 'IDLE' or not any(o[0] == 'lose' for o in outs):
